@@ -80,6 +80,28 @@ func c20Gen(r *rand.Rand, constantPrices bool) c20Journal {
 			}
 			held[cm] = true
 			j.Dirs = append(j.Dirs, gen.Dir{Kind: gen.KTxn, Date: d, Desc: "flow " + gen.Desc(r), Bookings: []gen.Booking{bk}})
+			// further flows on the same day: same commodity and direction in a separate
+			// transaction or as a second booking, or the opposite direction
+			for n := 0; n < 3 && r.Intn(3) == 0; n++ {
+				bk2 := bk
+				bk2.Qty = fmt.Sprintf("%d", 1+r.Intn(400))
+				switch r.Intn(4) {
+				case 0:
+					bk2.Debit = al[0]
+					if !strings.HasPrefix(bk2.Credit, "Assets") {
+						bk2.Credit = ext[r.Intn(2)]
+					}
+				case 1:
+					// opposite direction, small
+					bk2 = gen.Booking{Credit: acc, Debit: ext[2], Qty: fmt.Sprintf("%d", 1+r.Intn(100)), Com: cm}
+				}
+				if r.Intn(3) == 0 {
+					last := &j.Dirs[len(j.Dirs)-1]
+					last.Bookings = append(append([]gen.Booking{}, last.Bookings...), bk2)
+				} else {
+					j.Dirs = append(j.Dirs, gen.Dir{Kind: gen.KTxn, Date: d, Desc: "flow " + gen.Desc(r), Bookings: []gen.Booking{bk2}})
+				}
+			}
 		case r.Intn(3) == 0 && len(al) > 1:
 			// transfer between portfolio accounts (no external flow)
 			cm := coms[r.Intn(len(coms))]
